@@ -38,7 +38,8 @@ def fval(x):
 
 
 def one(ctx, rng, k):
-    g = gensolv.SolvGen(rng, with_attrs=True)
+    with_array = rng.random() < 0.3
+    g = gensolv.SolvGen(rng, with_attrs=True, with_array=with_array)
     g.force_aliases = rng.randint(2, 5)
     g.build()
     text = g.text()
@@ -46,7 +47,16 @@ def one(ctx, rng, k):
     for o in ("expand_mx", "replace_constant_values", "eliminate_constant_assignments", "replace_parameter_expressions"):
         if rng.random() < 0.25:
             opts[o] = True
+    if with_array:
+        opts["expand_vectors"] = True       # the alias classes then contain the scalars xv[1], xv[2]
+    if getattr(g, "late_alias", False) and not with_array and rng.random() < 0.6:
+        # an alias that is only found by a second pass (see C14): its metadata must be merged all the same
+        # (not together with expand_vectors: a second pass over an expanded model raises AttributeError today)
+        opts.update({"eliminate_constant_assignments": True, "replace_constant_values": True, "iterative_simplification": True})
     attrs = {name: {a: (num_of(v) if v[0] != "bool" else float(v[1])) for a, v in at.items()} for _, _, name, at, _ in g.decls}
+    if "xv[2]" in attrs:
+        at = attrs.pop("xv[2]")
+        attrs["xv[1]"], attrs["xv[2]"] = dict(at), dict(at)
     case = {"text": text, "options": opts, "attrs": attrs, "tags": sorted(g.tags)}
     try:
         before, model, warns = c14.compile_and_simplify(text, opts)
